@@ -225,6 +225,8 @@ def check_C16(c):
     c.scenario("adler_stream", features=["simd"])
     # the adler field of C streams (inflate: checksum of the output produced so far, also after error returns)
     c.scenario("capi_c16")
+    # the decoder's running checksum at block-boundary stops (pair rule in the snapshot scenario)
+    c.scenario("snapshots_c16")
     return c.finish("model_checking",
                     "one case = one buffer (length family x content) with every split point (short) or random splits; each call (start value, data, result) is recomputed by TLC from the Adler-32 / CRC-32 definitions in spec/Checksums.tla; scalar and simd builds",
                     TRUST)
